@@ -27,7 +27,7 @@ RULE = ('A scripted HTTP server on 127.0.0.1 (real sockets, real `requests`) ser
 EXHAUSTIVE = {'quick': True, 'thorough': True}
 EXHAUSTIVE_SCOPE = {'quick': 'all 351 scripted fault sequences of the quantifier',
                     'thorough': 'the same 351 plus sampled extended fault kinds'}
-FLOORS = {'quick': {'evaluations': 375, 'distinct_nontrivial': 200, 'monitors': {'M5.data_get': 300}},
+FLOORS = {'quick': {'evaluations': 390, 'distinct_nontrivial': 200, 'monitors': {'M5.data_get': 300}},
           'thorough': {'evaluations': 5000, 'distinct_nontrivial': 2000, 'monitors': {'M5.data_get': 3000}}}
 ASSUMPTIONS = ['loopback HTTP is available in the sandbox; proxies disabled via no_proxy',
                'when the checksum is unavailable only "an HTTP error raises" and "file = last body served" '
@@ -103,7 +103,11 @@ class Handler(BaseHTTPRequestHandler):
             if beh == 'missing':
                 return self._send(404, b'not found')
             good = BODIES[sc['good']]
-            h = hashlib.md5(good if beh == 'correct' else b'something else').hexdigest()
+            if beh == 'garbage':
+                return self._send(200, b'<html><body>no such file</body></html>')
+            h = hashlib.md5(good if beh in ('correct', 'upper') else b'something else').hexdigest()
+            if beh == 'upper':
+                h = h.upper()
             return self._send(200, (h + '  file.bin\n').encode())
         if beh in ('404', 'exhausted'):
             return self._send(404 if beh == '404' else 500, b'error')
@@ -146,6 +150,11 @@ def run_shard(desc, ctx):
              for dd in (['corrupt_near'], ['corrupt_near', 'good'], ['corrupt_near', 'corrupt_near'],
                         ['truncated', 'good'], ['empty', 'good'], ['big_corrupt', 'big_good'])
              for pr in ('absent', 'corrupt') for hd in ('ok', 'fail')]
+    # served-but-oddly-formatted checksums (uppercase hex, an HTML page): only the central safety clause
+    # is judged for these (a normal return must leave a file matching the published digest)
+    extra += [{'data': dd, 'md5': mm, 'prior': pr, 'good': 'good', 'head': 'ok'}
+              for dd in (['corrupt', 'corrupt'], ['corrupt'], ['good'], ['corrupt', 'good'])
+              for mm in ('upper', 'garbage') for pr in ('absent', 'corrupt')]
     for i, c in enumerate(extra):
         if i % desc['n'] == desc['shard']:
             if c['data'][0].startswith('big'):
@@ -256,14 +265,19 @@ def run_case(case, ctx):
         published = hashlib.md5(BODIES[good]).hexdigest()
         all_md5_ok = bool(md5_served) and all(m != 'missing' for m in md5_served)
         # (1) the central safety property
+        strict = all(m in ('correct', 'wrong', 'missing') for m in
+                     (case['md5'] if isinstance(case['md5'], list) else [case['md5']]))
         if r.ok and all_md5_ok:
             last = md5_served[-1]
-            pub = published if last == 'correct' else hashlib.md5(b'something else').hexdigest()
+            pub = {'correct': published, 'upper': published, 'garbage': None}.get(
+                last, hashlib.md5(b'something else').hexdigest())
             if final is None or hashlib.md5(final).hexdigest() != pub:
                 ctx.violation('returned_with_bad_checksum', case,
                               'download_file returned normally but the file does not match the published MD5; ' + info, feats)
         # (2) outcome and request counts per the retry state machine
-        if (exp_outcome == 'return') != r.ok:
+        if not strict:
+            pass
+        elif (exp_outcome == 'return') != r.ok:
             ctx.violation('wrong_outcome', case, 'expected %s; %s' % (exp_outcome, info),
                           dict(feats, expected=exp_outcome), tb=r.tb)
         elif len(served) != exp_gets and (verified or exp_gets == 0 or len(served) == 0 or
